@@ -8,7 +8,7 @@ cd "$(dirname "$0")/.." || exit 2
 if [ ! -d "$wt" ]; then git -C /repo worktree add --detach "$wt" main >/dev/null 2>&1 || exit 2; fi
 git -C "$wt" checkout -q --detach main && git -C "$wt" reset -q --hard main && git -C "$wt" clean -fdq
 git -C "$wt" apply "$patch" || { echo "PATCH DOES NOT APPLY"; exit 2; }
-VERIF_REPO="$wt" ./check "$id" --tier "$tier" > /tmp/seedtest-$id.out 2>/tmp/seedtest-$id.err
+VERIF_EVIDENCE_DIR=/tmp/seedtest-evidence VERIF_REPLAY_DIR=/tmp/seedtest-replays VERIF_REPO="$wt" ./check "$id" --tier "$tier" > /tmp/seedtest-$id.out 2>/tmp/seedtest-$id.err
 rc=$?
 grep -E "^(VIOLATION|OK|KNOWN-FINDING)" /tmp/seedtest-$id.out
 git -C "$wt" reset -q --hard main && git -C "$wt" clean -fdq
